@@ -410,6 +410,59 @@ func instrRun(c *core.Ctx) {
 			}
 		}
 	}
+	// (3b) reference-graph documents: TTML styles whose parent links range over EVERY assignment (none, any style
+	// incl. itself - cycles -, a missing id) x region->style, p->style/region, span->style references incl. dangling ones
+	{
+		ids := []string{"a", "b", "c"}
+		refs := []string{"", "a", "b", "c", "zz"}
+		for p0 := range refs {
+			for p1 := range refs {
+				for p2 := range refs {
+					for _, rs := range []string{"", "a", "zz"} {
+						for _, ps := range []string{"", "c", "zz"} {
+							for _, pr := range []string{"", "r", "zz"} {
+								if !c.Mine() {
+									continue
+								}
+								var b strings.Builder
+								b.WriteString(`<tt xmlns="http://www.w3.org/ns/ttml" xmlns:tts="http://www.w3.org/ns/ttml#styling"><head><styling>`)
+								for i, par := range []int{p0, p1, p2} {
+									fmt.Fprintf(&b, `<style xml:id="%s" tts:color="red"`, ids[i])
+									if refs[par] != "" {
+										fmt.Fprintf(&b, ` style="%s"`, refs[par])
+									}
+									b.WriteString("/>")
+								}
+								b.WriteString(`</styling><layout><region xml:id="r"`)
+								if rs != "" {
+									fmt.Fprintf(&b, ` style="%s"`, rs)
+								}
+								b.WriteString(`/></layout></head><body><div><p begin="1s" end="2s"`)
+								if ps != "" {
+									fmt.Fprintf(&b, ` style="%s"`, ps)
+								}
+								if pr != "" {
+									fmt.Fprintf(&b, ` region="%s"`, pr)
+								}
+								fmt.Fprintf(&b, `><span style="%s">x</span></p></div></body></tt>`, refs[(p0+1)%len(refs)])
+								do("refgraph.ttml", ReadCase{"ttml", []byte(b.String()), "TTML reference graph"})
+							}
+						}
+					}
+				}
+			}
+		}
+		// WebVTT: cue -> region references incl. unknown; SSA: event -> style references incl. unknown and '*' names
+		for _, reg := range []string{"", "r", "zz", "r r", ":", "r:"} {
+			if !c.Mine() {
+				continue
+			}
+			do("refgraph.vtt", ReadCase{"vtt", []byte("WEBVTT\n\nRegion: id=r width=40%\n\n00:01.000 --> 00:02.000 region:" + reg + "\nx\n"), "WebVTT region reference"})
+			for _, rd := range readersFor("ssa") {
+				do("refgraph.ssa", ReadCase{rd, []byte("[V4 Styles]\nFormat: Name, Bold\nStyle: r,-1\n\n[Events]\nFormat: Start, End, Style, Text\nDialogue: 0:00:01.00,0:00:02.00," + reg + ",x\nDialogue: 0:00:01.00,0:00:02.00,*" + reg + ",x\n"), "SSA style reference"})
+			}
+		}
+	}
 	for _, g := range binaryGenerators {
 		g(c, do)
 	}
